@@ -103,12 +103,14 @@ def gather_oracle(ctx):
         order = list(range(n))
         rng.shuffle(order)
         results = [["R", "res%d" % i] if rng.random() < 0.75 else ["X", rng.choice(sorted(sc.EXC))] for i in range(n)]
-        started = []
+        started = {}          # stream index (from the title) -> the future its executor waits on
 
         async def executor_called(exid, a, title, r=r, started=started):
+            # executors written as plain functions returning a Task start one loop iteration later than `async def`
+            # ones: invocations are matched with their streams by title, not by the order in which they start
             r.glog.append((exid, a, title))
             fut = asyncio.get_running_loop().create_future()
-            started.append(fut)
+            started[int(title[1:]) if title and title[1:].isdigit() and int(title[1:]) not in started else 1000 + len(started)] = fut
             return await fut
         r.executor_called = executor_called
 
@@ -120,14 +122,14 @@ def gather_oracle(ctx):
                     break
                 await asyncio.sleep(0)
             for i in order:
-                if i < len(started) and not started[i].done():
+                if i in started and not started[i].done():
                     if results[i][0] == "R":
                         started[i].set_result(results[i][1])
                     else:
                         started[i].set_exception(sc.EXC[results[i][1]]("scripted"))
                 await asyncio.sleep(0)
-            for extra in started[n:]:
-                if not extra.done():
+            for k, extra in started.items():
+                if k >= 1000 and not extra.done():
                     extra.set_result("extra")
             return await asyncio.wait_for(waiter, 5)
         sc._W = r
@@ -139,11 +141,12 @@ def gather_oracle(ctx):
             ctx.fail("failing-input", "asyncio.gather over %d streams, completion order %s: awaiters got %s, their executor "
                      "invocations produced %s" % (n, order, got_n, results), w, key="gather-results")
             return
-        if [e for e, _, _ in r.glog] != want_ex or [t for _, _, t in r.glog] != ["g%d" % i for i in range(n)]:
-            ctx.fail("failing-input", "asyncio.gather over %d streams: executor log %s, expected executors %s in start order"
+        glog = sorted(r.glog, key=lambda x: int(x[2][1:]) if x[2] and x[2][1:].isdigit() else -1)   # by title = by stream
+        if [e for e, _, _ in glog] != want_ex or [t for _, _, t in glog] != ["g%d" % i for i in range(n)]:
+            ctx.fail("failing-input", "asyncio.gather over %d streams: executor log %s, expected one invocation per stream on %s"
                      % (n, [(e, t) for e, _, t in r.glog], want_ex), w, key="gather-log")
             return
-        for (e, a, t), s in zip(r.glog, streams):
+        for (e, a, t), s in zip(glog, streams):
             if sc.enc_tree(a) != sc.enc_tree(sc.spec_remove_empty(s.query_ast)):
                 ctx.fail("failing-input", "asyncio.gather: an executor received another query than its stream's", w, key="gather-ast")
                 return
